@@ -2,7 +2,10 @@ package main
 
 import (
 	"fmt"
+	"go/token"
 	"go/types"
+	"os"
+	"regexp"
 	"sort"
 	"strings"
 
@@ -12,7 +15,7 @@ import (
 func newFnCtx(g *Global, fn *ssa.Function, con *FuncContract) *fnCtx {
 	c := &fnCtx{g: g, fn: fn, con: con, vals: map[ssa.Value]SymVal{}, out: map[*ssa.BasicBlock]*State{},
 		edge: map[[2]int]string{}, counts: map[string]int{}, comps: map[string]string{}, compDeclared: map[string]bool{},
-		strlits: map[string]string{}, flags: map[string]string{}, implDone: map[string]bool{}, loopOf: map[*ssa.BasicBlock]*loopInfo{},
+		strlits: map[string]string{}, flags: map[string]string{}, fired: map[int]bool{}, implDone: map[string]bool{}, loopOf: map[*ssa.BasicBlock]*loopInfo{},
 		dbg: map[string][]dbgRef{}, lets: map[string]SymVal{}, paramVals: map[string]SymVal{},
 		unboxDeclared: map[string]bool{}, specFnDeclared: map[string]bool{}, calleeCount: map[string]int{}, assumedUsed: map[string]bool{}}
 	c.fnName = shortFnName(g.funcKey[fn])
@@ -547,10 +550,82 @@ func (c *fnCtx) execBlock(b *ssa.BasicBlock, st *State) {
 			c.out[b] = nil
 			return
 		default:
+			c.fireAnchors(st, b, in)
 			c.execInstr(st, in)
 		}
 	}
 	c.out[b] = st
+}
+
+// fireAnchors evaluates snap/assert/assume clauses anchored at the source line of in.
+func (c *fnCtx) fireAnchors(st *State, b *ssa.BasicBlock, in ssa.Instruction) {
+	if c.con == nil || len(c.con.Asserts) == 0 || !in.Pos().IsValid() {
+		return
+	}
+	line := c.sourceLine(in.Pos())
+	if line == "" {
+		return
+	}
+	for i := range c.con.Asserts {
+		a := &c.con.Asserts[i]
+		if a.Anchor == "" || c.fired[i] {
+			continue
+		}
+		re, err := regexp.Compile(a.Anchor)
+		if err != nil {
+			c.abort("%s: bad anchor: %v", a.Pos, err)
+		}
+		if !re.MatchString(line) {
+			continue
+		}
+		c.fired[i] = true
+		env := c.newEnvAt(st, b)
+		env.atEnd = true
+		env.upTo = in
+		switch a.Kind {
+		case "snap":
+			k := strings.Index(a.Text, "=")
+			name := strings.TrimSpace(a.Text[:k])
+			v, err := env.evalText(strings.TrimSpace(a.Text[k+1:]))
+			if err != nil {
+				c.abort("%s: snap: %v", a.Pos, err)
+			}
+			c.lets[name] = c.nameVal(v, "snap_"+name)
+		case "assert":
+			t, err := env.evalBool(a.Text)
+			if err != nil {
+				c.abort("%s: assert: %v", a.Pos, err)
+			}
+			kind := "assert"
+			if a.Label != "" {
+				kind = "assert:" + a.Label
+			}
+			c.oblige(st, kind, t, a.Text, c.propsFor(a.Props), in.Pos())
+		case "assume":
+			t, err := env.evalBool(a.Text)
+			if err != nil {
+				c.abort("%s: assume: %v", a.Pos, err)
+			}
+			c.assume(st, t)
+			c.note("assume at /%s/: %s", a.Anchor, a.Text)
+		}
+	}
+}
+
+func (c *fnCtx) sourceLine(p token.Pos) string {
+	pp := c.g.prog.Fset.Position(p)
+	lines, ok := c.g.fileLines[pp.Filename]
+	if !ok {
+		b, err := os.ReadFile(pp.Filename)
+		if err == nil {
+			lines = strings.Split(string(b), "\n")
+		}
+		c.g.fileLines[pp.Filename] = lines
+	}
+	if pp.Line >= 1 && pp.Line <= len(lines) {
+		return lines[pp.Line-1]
+	}
+	return ""
 }
 
 func (c *fnCtx) setEdge(from, to *ssa.BasicBlock, st *State, cond string) {
@@ -582,6 +657,9 @@ func (c *fnCtx) checkBackEdge(from, to *ssa.BasicBlock, st *State, ec string) {
 			env := c.newEnvAt(bst, from)
 			env.atEnd = true
 			env.hdr = to
+			if li.headSt != nil {
+				env.old = li.headSt // old(e): value at the start of this iteration
+			}
 			t, err := env.evalBool(be.Text)
 			if err != nil {
 				c.abort("%s: bodyensures: %v", be.Pos, err)
@@ -649,6 +727,14 @@ func (c *fnCtx) checkBackEdge(from, to *ssa.BasicBlock, st *State, ec string) {
 
 // finish emits postcondition obligations.
 func (c *fnCtx) finish() {
+	if c.con != nil {
+		for i, a := range c.con.Asserts {
+			if a.Anchor != "" && !c.fired[i] {
+				c.obls = append(c.obls, &Obligation{Name: c.oblName("anchor-binding"), Fn: c.fnName, Kind: "contract-binding", Props: c.propsFor(a.Props),
+					Clause: a.Text, Pos: a.Pos, Backend: "static", Static: "no statement of the function matches the anchor /" + a.Anchor + "/"})
+			}
+		}
+	}
 	c.balanceObligations()
 	if c.con == nil {
 		return
@@ -782,6 +868,12 @@ func (c *fnCtx) collectDebug() {
 		for i, in := range b.Instrs {
 			if d, ok := in.(*ssa.DebugRef); ok {
 				if obj := d.Object(); obj != nil {
+					if v, ok := obj.(*types.Var); ok && v.IsField() {
+						continue // a field selector, not a variable
+					}
+					if _, isVar := obj.(*types.Var); !isVar {
+						continue
+					}
 					c.dbg[obj.Name()] = append(c.dbg[obj.Name()], dbgRef{d.X, d.IsAddr, b, i})
 				}
 			}
@@ -795,6 +887,10 @@ func (c *fnCtx) lookupVar(st *State, name string, at *ssa.BasicBlock) (SymVal, b
 }
 
 func (c *fnCtx) lookupVarX(st *State, name string, at *ssa.BasicBlock, atEnd bool, hdr *ssa.BasicBlock) (SymVal, bool) {
+	return c.lookupVarY(st, name, at, atEnd, hdr, nil)
+}
+
+func (c *fnCtx) lookupVarY(st *State, name string, at *ssa.BasicBlock, atEnd bool, hdr *ssa.BasicBlock, upTo ssa.Instruction) (SymVal, bool) {
 	if hdr != nil {
 		for _, in := range hdr.Instrs {
 			phi, ok := in.(*ssa.Phi)
@@ -837,11 +933,35 @@ func (c *fnCtx) lookupVarX(st *State, name string, at *ssa.BasicBlock, atEnd boo
 			if d.blk == at && !atEnd {
 				continue
 			}
+			if d.blk == at && upTo != nil {
+				// only references that precede the anchor
+				lim := -1
+				for k, ins := range at.Instrs {
+					if ins == upTo {
+						lim = k
+					}
+				}
+				if lim >= 0 && d.idx >= lim {
+					continue
+				}
+			}
 			if d.blk != at && !d.blk.Dominates(at) {
 				continue
 			}
 			if best == nil || best.blk.Dominates(d.blk) && (best.blk != d.blk || best.idx < d.idx) {
 				best = d
+			}
+		}
+		// a variable that lives in memory (address-taken) is always read through its cell
+		for i := range c.dbg[name] {
+			d := &c.dbg[name][i]
+			if d.isAddr {
+				if al, ok := d.v.(*ssa.Alloc); ok {
+					if _, defined := c.vals[al]; defined && (al.Block() == at || al.Block().Dominates(at)) {
+						locs, t := c.addrLocs(st, al)
+						return c.loadLocs(st, locs, t), true
+					}
+				}
 			}
 		}
 		if best != nil {
